@@ -929,7 +929,7 @@ template <class T> struct Xf
             }
             else if (!sameSet (r1, r0))
             {
-                std::string key = inv ? "transform-outparam:empty-input-leaves-result" : kind == 2 ? "transform-outparam:infinite-input-leaves-result" : affine ? "transform-outparam:affine-differs" : "transform-outparam:projective-extends-old-result";
+                std::string key = inv ? "transform-outparam:empty-input-leaves-result" : kind == 2 ? "transform-outparam:infinite-input-leaves-result" : affine ? "transform-outparam:affine-differs" : "transform-overloads-differ:projective-with-w=0-corner";
                 fail (key, ctx + " value-form -> " + boxS (r0) + " out-parameter form -> " + boxS (r1));
             }
             if (canAffine && !sameSet (r3, r2))
